@@ -1,7 +1,7 @@
 (* validate_sound, part 1: what an accepted partition looks like, and the conjuncts of WF that only need the local
    checks (root, names, quantities, guaranteed within max, max applications, limits against their own queue). *)
 From Coq Require Import List NArith ZArith Bool Lia.
-From YK Require Import Base.Int64 Base.Res Base.ResSpec Base.ResLemmas Base.ResLawsPred.
+From YK Require Import Base.Int64 Base.Res Base.ResSpec Base.ResLemmas Base.ResLaws2 Base.ResLawsPred.
 From YK Require Import Conf.Str Conf.Config Conf.Validate Conf.Load Conf.WF Conf.Lemmas.
 Import ListNotations.
 
@@ -149,23 +149,75 @@ Proof.
   constructor; eauto.
 Qed.
 
-Definition ResOk (q : queue) : Prop := exists pm g, checkQueueResource q pm = VOk g.
+(* parse results have unique keys *)
+Lemma parseEntries_wf m : forall acc r, parseEntries m acc = Some r -> wf acc -> wf r.
+Proof.
+  induction m as [|[k v] t IH]; intros acc r E Ha; cbn [parseEntries] in E.
+  - inversion E; subst; assumption.
+  - destruct (parseQ (N.eqb k 0) v) as [z|]; [|discriminate]. apply (IH _ _ E). apply wf_set. assumption.
+Qed.
+Lemma parseRes_wf m r : parseRes m = Some r -> wf r.
+Proof. intros E. eapply parseEntries_wf; [exact E | apply wf_nil]. Qed.
+
+Lemma checkResourceConfig_ok q gm :
+  checkResourceConfig q = VOk gm ->
+  parseRes (q_gua q) = Some (fst gm) /\ parseRes (q_max q) = Some (snd gm) /\
+  FitInMaxUndef (Some (snd gm)) (Some (fst gm)) = true /\
+  is_some (parseRes (t_gua (q_tmpl q))) = true /\ is_some (parseRes (t_max (q_tmpl q))) = true.
+Proof.
+  unfold checkResourceConfig. intros H.
+  apply bind_ok in H. destruct H as (g & Hg & H). apply bind_ok in H. destruct H as (m & Hm & H).
+  apply bind_ok in H. destruct H as (u & Hf & H). apply guard_ok in Hf.
+  apply bind_ok in H. destruct H as (tg & Htg & H). apply bind_ok in H. destruct H as (tm & Htm & H).
+  inversion H; subst gm. apply parseResV_ok in Hg, Hm, Htg, Htm. apply negb_false_iff in Hf.
+  cbn [fst snd]. rewrite Htg, Htm. auto.
+Qed.
+
+(* everything an accepted checkQueueResource call established *)
+Lemma checkQueueResource_inv q pm g :
+  checkQueueResource q pm = VOk g ->
+  exists curG curM sumG,
+    parseRes (q_gua q) = Some curG /\ parseRes (q_max q) = Some curM /\
+    FitInMaxUndef (Some curM) (Some curG) = true /\
+    FitInMaxUndef pm (Some curM) = true /\
+    foldV (sumChild (ComponentWiseMin (Some curM) pm)) (q_queues q) [] = VOk sumG /\
+    FitInMaxUndef (Some curG) (Some sumG) = true /\
+    FitInMaxUndef (ComponentWiseMin (Some curM) pm) (Some sumG) = true /\
+    g = (if IsZero (Some curG) then sumG else curG) /\
+    is_some (parseRes (t_gua (q_tmpl q))) = true /\ is_some (parseRes (t_max (q_tmpl q))) = true.
+Proof.
+  rewrite checkQueueResource_eq. intros E.
+  apply bind_ok in E. destruct E as ([curG curM] & Hc & E). cbn [fst snd] in E.
+  apply bind_ok in E. destruct E as (u1 & Hp & E). apply guard_ok in Hp. apply negb_false_iff in Hp.
+  apply bind_ok in E. destruct E as (sumG & Hs & E).
+  apply bind_ok in E. destruct E as (u2 & Hg & E). apply guard_ok in Hg. apply negb_false_iff in Hg.
+  apply bind_ok in E. destruct E as (u3 & Hm & E). apply guard_ok in Hm. apply negb_false_iff in Hm.
+  inversion E; subst g. apply checkResourceConfig_ok in Hc. cbn [fst snd] in Hc.
+  destruct Hc as (A & B & C & D & F). exists curG, curM, sumG. auto 12.
+Qed.
+
+Definition ResOk (q : queue) : Prop := exists pm g, owf pm /\ checkQueueResource q pm = VOk g.
+Lemma owf_cwm curM pm : wf curM -> owf pm -> owf (ComponentWiseMin (Some curM) pm).
+Proof. intros H1 H2. destruct pm as [pmr|]; cbn; [apply Base.ResLaws2.cwMin_wf | assumption]. Qed.
 Lemma ResOk_children q : ResOk q -> Forall ResOk (q_queues q).
 Proof.
-  intros (pm & g & E). rewrite checkQueueResource_eq in E. vinv E. ginv E. vinv E.
-  apply foldV_ok_each in H0. eapply Forall_impl; [|exact H0]. intros c (s1 & s2 & Ec).
-  unfold sumChild in Ec. vinv Ec. red. eauto.
+  intros (pm & g & Hw & E). apply checkQueueResource_inv in E.
+  destruct E as (curG & curM & sumG & _ & Hm & _ & _ & Hs & _).
+  apply foldV_ok_each in Hs. eapply Forall_impl; [|exact Hs]. intros c (s1 & s2 & Ec).
+  unfold sumChild in Ec. apply bind_ok in Ec. destruct Ec as (cg & Ec & _).
+  exists (ComponentWiseMin (Some curM) pm), cg. split; [|assumption].
+  apply owf_cwm; [eapply parseRes_wf; eassumption | assumption].
 Qed.
 Lemma ResOk_local q : ResOk q ->
   exists g m, parseRes (q_gua q) = Some g /\ parseRes (q_max q) = Some m /\
               FitInMaxUndef (Some m) (Some g) = true /\
               is_some (parseRes (t_gua (q_tmpl q))) = true /\ is_some (parseRes (t_max (q_tmpl q))) = true.
 Proof.
-  intros (pm & g & E). rewrite checkQueueResource_eq in E. vinv E. clear E.
-  unfold checkResourceConfig in H. vinv H. vinv H. ginv H. vinv H. vinv H.
-  apply parseResV_ok in H0, H1, H2, H3. exists v0, v1. rewrite H0, H1, H2, H3.
-  apply negb_false_iff in G. auto.
+  intros (pm & g & _ & E). apply checkQueueResource_inv in E.
+  destruct E as (curG & curM & sumG & A & B & C & _ & _ & _ & _ & _ & D & F). exists curG, curM. auto.
 Qed.
+Lemma PartOk_ResOk p p' root : PartOk p p' root -> ResOk root.
+Proof. intros H. destruct (po_res _ _ _ H) as (g & E). exists None, g. split; [apply wf_nil | assumption]. Qed.
 
 Lemma checkNames_ok okf names : forall seen seen',
   checkNames okf names seen = VOk seen' -> forallb (fun n => str_eqb n s_star || okf n) names = true.
@@ -230,7 +282,7 @@ Proof.
   intros H. unfold wf_quantities, allq.
   apply (allq_local (fun q => is_some (parseRes (q_gua q)) && is_some (parseRes (q_max q)) &&
                               forallb (fun l => is_some (parseRes (l_maxres l))) (q_limits q)) QR);
-    [|split; [exact (po_queues _ _ _ H) | destruct (po_res _ _ _ H) as (g & E); red; eauto]].
+    [|split; [exact (po_queues _ _ _ H) | exact (PartOk_ResOk _ _ _ H)]].
   intros q Hq. split; [|apply QR_children; assumption]. destruct Hq as [A B].
   destruct (ResOk_local _ B) as (g & m & Eg & Em & _). rewrite Eg, Em. cbn [is_some andb].
   apply forallb_Forall. eapply Forall_impl; [|exact (QueuesOk_limits _ A)].
@@ -241,7 +293,7 @@ Theorem sound_gua_max p p' root : PartOk p p' root -> wf_gua_max root = true.
 Proof.
   intros H. unfold wf_gua_max, allq.
   apply (allq_local (fun q => within (pres (q_max q)) (pres (q_gua q))) ResOk);
-    [|destruct (po_res _ _ _ H) as (g & E); red; eauto].
+    [|exact (PartOk_ResOk _ _ _ H)].
   intros q Hq. split; [|apply ResOk_children; assumption].
   destruct (ResOk_local _ Hq) as (g & m & Eg & Em & F & _). unfold within, pres. rewrite Eg, Em. exact F.
 Qed.
@@ -293,7 +345,7 @@ Proof.
     rewrite E1, E2. cbn [andb]. destruct C as [C|C].
     + unfold pres at 1. rewrite C. cbn. apply within_nil.
     + apply E4. exact C.
-  - split; [exact (po_queues _ _ _ H)|]. split; [destruct (po_res _ _ _ H) as (g & E); red; eauto|].
+  - split; [exact (po_queues _ _ _ H)|]. split; [exact (PartOk_ResOk _ _ _ H)|].
     left. destruct (po_struct _ _ _ H) as (root0 & E0 & E1).
     destruct (structure_root _ _ E0) as (_ & _ & _ & D). destruct (limits_structure_root _ _ _ E1) as (_ & _ & _ & D').
     congruence.
